@@ -108,8 +108,9 @@ def compare(case, m, i):
     return all(abs(a - b) <= dt * len(e["meta"]) for a, b in zip(total, got))
 
 
-def feeder_spec(parent_list, sw, T, ties=None):
-    feeders = [{"parent": p, "sw": [sw] * len(p), "cust": [1] * len(p), "load": ["1/20"] * len(p), "cost": [1] * len(p)} for p in parent_list]
+def feeder_spec(parent_list, sw, T, ties=None, sw0=None):
+    # sw0: switch class of the breaker line (None: as the other lines; 0: the breaker only)
+    feeders = [{"parent": p, "sw": [sw if sw0 is None else sw0] + [sw] * (len(p) - 1), "cust": [1] * len(p), "load": ["1/20"] * len(p), "cost": [1] * len(p)} for p in parent_list]
     return {"ctrl": {"type": "manual", "T": str(T)}, "feeders": feeders, "tie": None, "ties": ties or [], "mg": None, "rep": "2", "exact": True}
 
 
@@ -153,13 +154,14 @@ def gen(rng, n, exhaustive_upto):
             fa, fb_ = rng.choice([(0, 1), (1, 0)])        # the tie is registered in either feeder
             ties = [{"a": [fa, rng.randrange(len(parents[fa]))], "b": [fb_, rng.randrange(len(parents[fb_]))]}]
         T = rng.choice(Ts); dt = rng.choice([F(1), F(1, 2), F(1, 4)])
-        spec = feeder_spec(parents, sw, T, ties)
-        f = rng.randrange(nfeed); fl = rng.randrange(len(parents[f]))
+        sw0 = 0 if (sw == 3 and rng.random() < 0.4) else None       # breaker line carrying the breaker only
+        spec = feeder_spec(parents, sw, T, ties, sw0)
+        f = rng.randrange(nfeed); fl = rng.randrange(len(parents[f])) if rng.random() < 0.7 else 0
         faults = {str(rng.randint(1, 4)): [[f"F{f}L{fl}", str(rng.choice(reps))]]}
         if rng.random() < 0.3:      # a second, non-overlapping contingency: effects add up
             f2 = rng.randrange(nfeed); fl2 = rng.randrange(len(parents[f2]))
             faults[str(int(list(faults)[0]) + int((T + F(5, 2)) / dt) + int(T / dt) + 6)] = [[f"F{f2}L{fl2}", str(rng.choice(reps))]]
-        cases.append(make_case(spec, faults, dt, f"{nfeed}-feeders-sw{sw}-ties{len(ties)}"))
+        cases.append(make_case(spec, faults, dt, f"{nfeed}-feeders-sw{sw}{'' if sw0 is None else '-bare-breaker-line'}-ties{len(ties)}"))
     return cases
 
 
@@ -167,7 +169,7 @@ def run(res):
     rng = random.Random(res.seed * 8191 + 71)
     n, ex = (150, 3) if res.tier == "quick" else (3000, 5)
     res.rule = (f"exhaustive: every rooted feeder tree with <= {ex} lines x switch class (both ends / upstream end / none) x every faulted line; "
-                "random: 1-2 feeders of up to 6 lines, both-end disconnectors with a backup tie, upstream-only or none without ties, fault instants 1..4, "
+                "random: 1-2 feeders of up to 6 lines, both-end disconnectors with a backup tie (40% with a breaker line that carries the breaker only; 30% of the faults on the breaker line), upstream-only or none without ties, fault instants 1..4, "
                 "repair in {1/2,1,4/3,2,5/2} h, sectioning in {1/2,3/4,1,3/2} h, steps 1, 1/2, 1/4 h, 30% with a second non-overlapping contingency. "
                 "non-trivial = distinct (lines, passes of sectioning, persistence, ties, number of contingencies)")
     res.exhaustive = True
